@@ -206,7 +206,7 @@ CLAIMED["C07"] = dict(
           "under the all-gather contract (as C06)."),
     design_ref="DESIGN.md §4/C07",
     note=("recovery by contract (C15), pieces per parameter enumerated 0..3, chunk counts enumerated; FSDP shard metadata partition is external; simulated-shard comparison with serial "
-          "Shampoo on the recovered pieces and exactly-once coverage across shard ranks are bounded (1..8 ranks); HSDP on a 2-D mesh is not replayed natively"),
+          "Shampoo on the recovered pieces and exactly-once coverage across shard ranks are bounded (1..8 ranks); the real HSDP distributor on replicate x shard meshes of simulated ranks (replica agreement for every communication setting, FP32 equal to serial on the recovered pieces) is bounded (meshes 2x2, 4x1, 3x2, 4x2)"),
     technique=E2 + "; contract composition C15 + C05 + C06",
 )
 CLAIMED["C08"] = dict(
